@@ -6,6 +6,7 @@ import Lean.Data.Json
 import Kust.Wire
 import Kust.Fns
 import Kust.Res
+import Kust.Fmt
 import Kust.Gen.Lists
 open Lean Kust
 
@@ -85,10 +86,25 @@ def runRes (op : String) (a : Json) : Except String Json := do
     return Json.mkObj [("ok", Json.arr (sorted.map idToJson).toArray)]
   | _ => throw s!"unknown res op {op}"
 
+/-- `FormatFilter{}.Filter` on one document whose `kind`/`apiVersion` the harness has read (scalars) -/
+def runFmt (op : String) (a : Json) : Except String Json := do
+  match op with
+  | "node" =>
+    let doc ← nodeOfJson (a.getObjValD "doc")
+    let kind ← (a.getObjValD "kind").getStr?
+    let apiv ← (a.getObjValD "apiVersion").getStr?
+    let cfg : Fmt.Cfg := { order := Gen.fieldSortOrder,
+                           wl := Gen.whitelistKinds.contains kind && Gen.whitelistApis.contains apiv,
+                           wlFields := Gen.whitelistFields }
+    let out := Fmt.fmtN Fmt.mergeSorter cfg (doc.size + 1) "" doc
+    return Json.mkObj [("ok", nodeToJson out)]
+  | _ => throw s!"unknown fmt op {op}"
+
 def dispatch (comp : String) (args : Json) : Except String Json :=
   match comp.splitOn "." with
   | ["fns", op] => runFns op args
   | ["res", op] => runRes op args
+  | ["fmt", op] => runFmt op args
   | _ => throw s!"unknown component {comp}"
 
 partial def loop (hin hout : IO.FS.Stream) : IO Unit := do
